@@ -342,6 +342,14 @@ func c18R6(prog *Prog, fs map[string]*FuncInfo, r *Report) {
 							marks = append(marks, y)
 						}
 					}
+					// args[j] = name + "..."
+					if y.Tok == token.ASSIGN && len(y.Lhs) == 1 && len(y.Rhs) == 1 && elemOf(y.Lhs[0]) != nil {
+						if be, ok := unparen(y.Rhs[0]).(*ast.BinaryExpr); ok && be.Op == token.ADD {
+							if tv, ok := info.Types[be.Y]; ok && tv.Value != nil && tv.Value.ExactString() == `"..."` {
+								marks = append(marks, y)
+							}
+						}
+					}
 				}
 				return true
 			})
